@@ -121,7 +121,8 @@ def main():
         dst = os.path.join(VERIF, 'seeded', a.seed_id)
         os.makedirs(dst, exist_ok=True)
         for f in ('patch.diff', 'demo.py', 'notes.md'):
-            if os.path.exists(os.path.join(a.src, f)):
+            if os.path.exists(os.path.join(a.src, f)) and \
+                    os.path.abspath(a.src) != os.path.abspath(dst):
                 shutil.copy(os.path.join(a.src, f), dst)
         notes = ''
         np = os.path.join(a.src, 'notes.md')
